@@ -1085,13 +1085,32 @@ def rule_origin_fresh(ctx, rep, config="c-lib"):
                     if li.t.get("phi#%d" % ph.id) == 1 and len(li.t) == 1 and li.c != 0:
                         return True
             return False
+        from .r4 import _edge_conditions
+
+        def canon(cc, pol):
+            """a comparison as (a, rel, b) with rel in < <= == != and the polarity folded in"""
+            pr = cc.d["pred"]
+            a_, b_ = repr(expr.lin(f, cc.ops[0], 0, 1)), repr(expr.lin(f, cc.ops[1], 0, 1))
+            if not pol:
+                pr = {"eq": "ne", "ne": "eq", "slt": "sge", "sge": "slt", "sle": "sgt", "sgt": "sle", "ult": "uge", "uge": "ult", "ule": "ugt", "ugt": "ule"}[pr]
+            if pr[1:] in ("gt", "ge"):
+                a_, b_, pr = b_, a_, pr[0] + {"gt": "lt", "ge": "le"}[pr[1:]]
+            return (a_, pr[-2:] if pr not in ("eq", "ne") else pr, b_)
+
+        def contradictory(cs):
+            for (a_, r, b_) in cs:
+                neg = {"lt": (b_, "le", a_), "le": (b_, "lt", a_), "eq": (a_, "ne", b_), "ne": (a_, "eq", b_)}[r]
+                if neg in cs or (r in ("eq", "ne") and (b_, {"eq": "ne", "ne": "eq"}[r], a_) in cs):
+                    return True
+            return False
         carried = None
-        work, seen = [c.ops[side]], set()
+        work, seen = [(c.ops[side], frozenset(canon(cc, pol) for (cc, pol) in _controlling_conditions(f, c.block.name) if cc.block.name in L["body"]))], set()
         while work:
-            o = strip_casts(f, work.pop())
-            if o.get("k") != "i" or o["v"] in seen:
+            o, cs = work.pop()
+            o = strip_casts(f, o)
+            if o.get("k") != "i" or (o["v"], cs) in seen or len(seen) > 4000:
                 continue
-            seen.add(o["v"])
+            seen.add((o["v"], cs))
             i = f.insts.get(o["v"])
             if i is None or i.block.name not in L["body"]:
                 continue
@@ -1100,19 +1119,23 @@ def rule_origin_fresh(ctx, rep, config="c-lib"):
                     carried = i
                 continue
             if i.op == "phi":
-                work.extend(v for (v, _) in i.d["incoming"])
+                for (v, pb) in i.d["incoming"]:
+                    # the way in is taken only under its own conditions: a way that contradicts what the later ways in required does not exist
+                    ncs = cs | frozenset(canon(cc, pol) for (cc, pol) in _edge_conditions(f, pb, i.block.name) if cc.block.name in L["body"])
+                    if not contradictory(ncs):
+                        work.append((v, ncs))
             elif i.op == "load":
-                work.append(i.ops[0])
+                work.append((i.ops[0], cs))
             elif i.op == "getelementptr":
-                work.append(i.d["base"])
+                work.append((i.d["base"], cs))
                 for st in i.d["path"]:
                     for k_ in ("idx", "ptr"):
                         if isinstance(st.get(k_), dict):
-                            work.append(st[k_])
+                            work.append((st[k_], cs))
             elif i.is_call():
-                work.extend(i.args)
+                work.extend((a_, cs) for a_ in i.args)
             else:
-                work.extend(x_ for x_ in (i.ops or []) if isinstance(x_, dict))
+                work.extend((x_, cs) for x_ in (i.ops or []) if isinstance(x_, dict))
         if carried is None:
             rep.ok("C03-origin-fresh", key, sample={"comparison": c.where()})
         else:
